@@ -148,6 +148,52 @@ def run(chk):
     chk.cov["traces_validated_against_impl"] = len(flows)
     chk.sample({"flow": flows[0].model_line(), "label": flows[0].label, "model": model[0], "cff": permsgs.get(0, [])})
 
+    # ---- two flows in one file: each is judged on its own (no state of the validation of one flow may
+    # leak into the next): a well-formed flow next to a mutant of itself over the same types
+    if not chk.violations:
+        import random as _random
+        r2 = _random.Random(chk.seed * 31337 + 7)
+        tpkg = os.path.join(mod, "vtwo")
+        os.makedirs(tpkg)
+        pairs = []
+        while len(pairs) < (30 if quick else 300):
+            w = flowgen.gen_wellformed(r2)
+            m = flowgen.mutate(r2, w)
+            if m is None:
+                continue
+            if len(pairs) % 3 != 2 and not m.label.startswith(("back_edge", "self_cycle")):
+                continue            # two thirds of the pairs carry a cycle
+            pairs.append((w, m, len(pairs) % 2 == 0))
+        nt2 = 2 + max(max([-1] + f.params + f.results + [x for t in f.tasks for x in t["ins"] + t["outs"] + (t["pred"] or [])]) for pr in pairs for f in pr[:2])
+        open(os.path.join(tpkg, "types.go"), "w").write(flowgen.render_types_file(nt2).replace("package vflows", "package vtwo"))
+        for k, (w, m, wfirst) in enumerate(pairs):
+            a, b = (w, m) if wfirst else (m, w)
+            ta = flowgen.render_validator_file(2 * k, a).replace("package vflows", "package vtwo")
+            tb = flowgen.render_validator_file(2 * k + 1, b).replace("package vflows", "package vtwo")
+            tb = tb[tb.index("// "):]                       # the second flow without header and imports
+            open(os.path.join(tpkg, "g%04d.go" % k), "w").write(ta + "\n" + tb)
+        rc2, out2 = common.run_cff(mod, "./vtwo")
+        if "panic:" in out2 or "goroutine 1 [" in out2 or "fatal error:" in out2:
+            chk.violate("cff crashed on a package whose files hold two flows each", {"output": out2[-3000:], "module": mod})
+        mv2 = common.model_run("validate", [f.model_line() for pr in pairs for f in pr[:2]])
+        for k, (w, m, wfirst) in enumerate(pairs):
+            if chk.violations:
+                break
+            okw = mv2[2 * k].split("|")[0].strip() == "ACCEPT"
+            okm = mv2[2 * k + 1].split("|")[0].strip() == "ACCEPT"
+            acc = os.path.exists(os.path.join(tpkg, "g%04d_gen.go" % k))
+            chk.count(1, key=("two", w.model_line(), m.model_line(), wfirst))
+            named = any(("vtwo/g%04d.go:" % k) in l for l in out2.split("\n"))
+            if acc != (okw and okm):
+                chk.violate("a file with two flows (%s first) was %s although %s: %s  ||  %s" % (
+                    "the well-formed one" if wfirst else "the mutant", "accepted" if acc else "rejected",
+                    "one of them is ill-formed (%s)" % m.label if acc else "both are well-formed", w.model_line(), m.model_line()),
+                    {"file": "vtwo/g%04d.go" % k, "first": (w if wfirst else m).model_line(), "second": (m if wfirst else w).model_line(),
+                     "mutation": m.label, "cff_messages": [l for l in out2.split("\n") if ("g%04d.go" % k) in l][:6], "module": mod})
+            elif not acc and not named:
+                chk.violate("a file with two flows was rejected without a diagnostic naming it: %s  ||  %s" % (w.model_line(), m.model_line()),
+                            {"file": "vtwo/g%04d.go" % k, "output_tail": out2[-1500:]})
+        chk.cov.setdefault("correspondence", {})["two_flows_per_file"] = {"files": len(pairs), "order": "well-formed first in every second file"}
     # ---- Parallel: Slice / Map element types vs parameter types
     ppkg = os.path.join(mod, "vpar")
     os.makedirs(ppkg)
@@ -200,7 +246,7 @@ def run(chk):
     if parsigcov:
         chk.cov["correspondence"]["parallel_signatures"] = parsigcov
     for k, v in prev.items():
-        if k.startswith("extraction_cross_check"):
+        if k.startswith("extraction_cross_check") or k == "two_flows_per_file":
             chk.cov["correspondence"][k] = v
     chk.cov["rule"] = "distinct = different abstract flow; all non-trivial (>= 1 task)"
     chk.assumptions += ["types are atoms: go/types identity and assignability are Go library code (assignability is an oracle in C14_parallel)",
